@@ -6,6 +6,7 @@ package nebula
 // relay allocation; the invariant is evaluated on every node after every event.
 
 import (
+	"crypto/rand"
 	"fmt"
 	"net/netip"
 	"slices"
@@ -24,10 +25,11 @@ type hostmapOracle struct {
 	rc      *sk.RunCtx
 	seen    map[*HostMap]map[*HostInfo]bool // true = still live, false = removed
 	maxList int
+	removed map[*HostMap][]*HostInfo // removed tunnels in the order their removal was noticed (same-event ones by index)
 }
 
 func newHostmapOracle(rc *sk.RunCtx) *hostmapOracle {
-	return &hostmapOracle{rc: rc, seen: map[*HostMap]map[*HostInfo]bool{}}
+	return &hostmapOracle{rc: rc, seen: map[*HostMap]map[*HostInfo]bool{}, removed: map[*HostMap][]*HostInfo{}}
 }
 
 func (o *hostmapOracle) check(n *simNode, ev string) bool {
@@ -107,12 +109,21 @@ func (o *hostmapOracle) check(n *simNode, ev string) bool {
 		seen[h] = true
 	}
 	// anything seen live before and no longer indexed is removed: it must be unreachable from everywhere
+	var gone []*HostInfo
 	for h, was := range seen {
 		if !was || live(h) {
 			continue
 		}
 		seen[h] = false
+		gone = append(gone, h)
 	}
+	slices.SortFunc(gone, func(a, b *HostInfo) int {
+		if a.localIndexId != b.localIndexId {
+			return int(int64(a.localIndexId) - int64(b.localIndexId))
+		}
+		return int(int64(a.remoteIndexId) - int64(b.remoteIndexId))
+	})
+	o.removed[hm] = append(o.removed[hm], gone...)
 	for h, was := range seen {
 		if was {
 			continue
@@ -184,6 +195,16 @@ func runC28(rc *sk.RunCtx) {
 	if rc.Thorough() {
 		horizon = time.Duration(30+tp.Choose(200)) * time.Second
 	}
+	squeezed := tp.Chance(1, 2)
+	if squeezed {
+		// a small index space (the seam C29 uses): a removed tunnel's local index is soon carried by a newer tunnel,
+		// which is when a stale promotion of the removed one must still be refused
+		sq := &squeezeReader{inner: rand.Reader, mask: byte(1<<(3+tp.Choose(4)) - 1)}
+		saved := rand.Reader
+		rand.Reader = sq
+		defer func() { rand.Reader = saved }()
+		rc.Count("world.squeezed_index_space", 1)
+	}
 	// relay topologies too: relay indexes (hm.Relays) are part of the statement
 	mw := buildMesh(rc, meshOpts{minNodes: 2, maxNodes: 4, allowLighthouse: true, allowRelay: true, multiAddr: true, allowP256: true, horizon: horizon})
 	if rc.Failed() {
@@ -215,7 +236,10 @@ func runC28(rc *sk.RunCtx) {
 	extra := 6 + tp.Choose(20)
 	for k := 0; k < extra; k++ {
 		at := time.Second + time.Duration(tp.Choose(int(horizon/time.Millisecond)))*time.Millisecond
-		kind := tp.Choose(5)
+		kind := tp.Choose(6)
+		if squeezed && tp.Chance(1, 3) {
+			kind = 5
+		}
 		i := tp.Choose(n)
 		pick := tp.Choose(64)
 		if kind == 4 {
@@ -276,6 +300,23 @@ func runC28(rc *sk.RunCtx) {
 						rc.Count("op.promote_after_delete", 1)
 						nd.f.hostMap.MakePrimary(h)
 					}
+				}
+			case 5: // a stale promotion of a tunnel removed a while ago, preferably one whose local index a newer tunnel carries by now
+				gone := or.removed[nd.f.hostMap]
+				var reused []*HostInfo
+				nd.f.hostMap.RLock()
+				for _, h := range gone {
+					if cur, ok := nd.f.hostMap.Indexes[h.localIndexId]; ok && cur != h {
+						reused = append(reused, h)
+					}
+				}
+				nd.f.hostMap.RUnlock()
+				if len(reused) > 0 {
+					rc.Count("op.stale_promote_index_reused", 1)
+					nd.f.hostMap.MakePrimary(reused[pick%len(reused)])
+				} else if len(gone) > 0 {
+					rc.Count("op.stale_promote", 1)
+					nd.f.hostMap.MakePrimary(gone[pick%len(gone)])
 				}
 			case 3: // restart with a certificate that keeps the first address and changes the second
 				spec := *mw.specs[i]
